@@ -313,7 +313,13 @@ def profile_errors(rnd, tier):
             reply = [(c, F('NDeclareOk', g.serial))] if pend in (None, 'ret') else []
             if pend == 'ch':
                 closed.add(c)
-            steps.append((c, ('rpc', 0), [fr + reply] if rnd.random() < 0.5 else [fr, reply]))
+            if pend == 'ch' and rnd.random() < 0.6:
+                # the classic: consuming from (or polling) a queue that does not exist - these
+                # calls wait for their answer holding the channel's own lock
+                steps.append((c, rnd.choice([('consume', b'nq'), ('get',)]),
+                              [fr] if rnd.random() < 0.5 else [[], fr]))
+            else:
+                steps.append((c, ('rpc', 0), [fr + reply] if rnd.random() < 0.5 else [fr, reply]))
         elif r < 0.65:
             steps.append((c, ('publish', rnd.random() < 0.5), []))
         elif r < 0.72:
@@ -340,7 +346,7 @@ def profile_faults(rnd, tier):
     kind = rnd.choice(['recv', 'recv', 'reset', 'send', 'poll', 'midframe'])
     fault = {'recv': (0, F('NFaultRecv', 0)), 'reset': (0, F('NFaultRecv', 1)),
              'midframe': (0, F('NFaultRecv', 2)),
-             'send': (0, F('NFaultSend')), 'poll': (0, F('NFaultPoll'))}[kind]
+             'send': (0, F('NFaultSend')), 'poll': (0, F('NFaultPoll', rnd.randrange(6)))}[kind]
     n = rnd.randrange(2, 7)
     at = rnd.randrange(0, n)
     confirm = rnd.random() < 0.3
